@@ -19,7 +19,7 @@ with any `FunctionCode` value), in the property's own words:
 
 Hypotheses that remain, all about the VALUE, none about the codec:
   `m.fits`     the payload's byte count fits the one-byte count field (1..=2040 coils, 1..=127 words);
-  `m.InScope` / `InScopeRsp m`   a custom code is not one of the nine the decoder models as a dedicated
+  `m.InScope` / `InScopeRsp m`   a custom code is not one of the nine (responses: ten, with 0x07) the decoder models as a dedicated
                kind (requests: and is below 0x80);
   `m.Framed`   `True` for the nine standard kinds; for a custom code: code :: data is a complete PDU of
                the specification's length table (responses: and the code is below 0x80);
@@ -102,10 +102,10 @@ theorem tcp_request_frame_fields {r : Request} {m : Spec.ReqMeaning}
 /-! non-vacuity.  A nine-coil write-multiple-coils request built by `Coils::from_bools` over a dirty
     three-byte target; a 127-word bound; a custom PDU the table knows (0x16, mask write register). -/
 example : Coils.fromBools [true, false, true, true, false, false, true, true, true] [0xEE, 0xEE, 0xEE] =
-    .ok ⟨[0xCD, 0x01, 0xEE], 9⟩ := by decide +kernel
+    .ok ⟨[0xCD, 0x01], 9⟩ := by decide +kernel
 
 example : ∃ n out r',
-    Tcp.encodeRequest 0xABCD 0x2A (.writeMultipleCoils 5 ⟨[0xCD, 0x01, 0xEE], 9⟩) (List.replicate 16 0xEE) = .ok (n, out) ∧
+    Tcp.encodeRequest 0xABCD 0x2A (.writeMultipleCoils 5 ⟨[0xCD, 0x01], 9⟩) (List.replicate 16 0xEE) = .ok (n, out) ∧
     n = (Spec.reqBytes (.writeMultipleCoils 5 [true, false, true, true, false, false, true, true, true])).length + 7 ∧
     out.take n = Spec.tcpFrame 0xABCD 0x2A
       (Spec.reqBytes (.writeMultipleCoils 5 [true, false, true, true, false, false, true, true, true])) ∧
@@ -117,9 +117,9 @@ example : ∃ n out r',
     ⟨by decide, by decide⟩ trivial trivial 0xABCD 0x2A (List.replicate 16 0xEE) (by decide +kernel)
 
 /-- the same instance evaluated in the kernel: the fifteen bytes, and what the decoder returns for them
-    (the container's stale third byte 0xEE is not transmitted and does not come back) -/
+    (the target's stale third byte 0xEE is not kept in the value, not transmitted and does not come back) -/
 example :
-    Tcp.encodeRequest 0xABCD 0x2A (.writeMultipleCoils 5 ⟨[0xCD, 0x01, 0xEE], 9⟩) (List.replicate 16 0xEE) =
+    Tcp.encodeRequest 0xABCD 0x2A (.writeMultipleCoils 5 ⟨[0xCD, 0x01], 9⟩) (List.replicate 16 0xEE) =
       .ok (15, [0xAB, 0xCD, 0, 0, 0, 9, 0x2A, 0x0F, 0, 5, 0, 9, 2, 0xCD, 0x01, 0xEE]) ∧
     Spec.tcpFrame 0xABCD 0x2A
         (Spec.reqBytes (.writeMultipleCoils 5 [true, false, true, true, false, false, true, true, true])) =
@@ -286,13 +286,30 @@ example : InScopeRsp (.custom 0x18 [0x00, 0x02, 0xAA, 0xBB]) ∧
     (Spec.RspMeaning.custom 0x18 [0x00, 0x02, 0xAA, 0xBB]).Framed ∧
     (Spec.RspMeaning.custom 0x18 [0x00, 0x02, 0xAA, 0xBB]).MbapLen := by
   refine ⟨?_, ⟨by decide, ?_⟩, ?_⟩
-  · show (0x18 : UInt8) ∉ modelledReqCodes
+  · show (0x18 : UInt8) ∉ modelledRspCodes
     decide
   rotate_left
   · show [(0x00 : UInt8), 0x02, 0xAA, 0xBB].length + 2 < 65536
     decide
   show Spec.PduComplete .rsp _
   unfold Spec.PduComplete; decide +kernel
+
+/-- **Read Exception Status, end to end** — an instance of `tcp_response_end_to_end_partial` like any
+    fixed-layout kind: every status byte, every transaction / unit id, every buffer of at least nine bytes -/
+theorem tcp_read_exception_status_end_to_end (s : UInt8) (tid : UInt16) (uid : UInt8) (buf : Bytes)
+    (hl : 9 ≤ buf.length) :
+    ∃ n out r', Tcp.encodeResponse tid uid (.ok (.readExceptionStatus s)) buf = .ok (n, out) ∧ n = 9 ∧
+      out.take n = Spec.tcpFrame tid uid [0x07, s] ∧
+      Tcp.decodeResponse (out.take n) = .ok (some (tid, uid, .ok r')) ∧
+      r'.sem = some (.readExceptionStatus s) :=
+  tcp_response_end_to_end_partial (.readExceptionStatus s) trivial trivial trivial trivial
+    (fun _ h => by cases h) tid uid buf hl
+
+example : Tcp.encodeResponse 0x0102 0x11 (.ok (.readExceptionStatus 0x6D)) (List.replicate 9 0) =
+      .ok (9, [0x01, 0x02, 0, 0, 0, 3, 0x11, 0x07, 0x6D]) ∧
+    Tcp.decodeResponse [0x01, 0x02, 0, 0, 0, 3, 0x11, 0x07, 0x6D] =
+      .ok (some (0x0102, 0x11, .ok (.readExceptionStatus 0x6D))) := by
+  constructor <;> decide +kernel
 
 /-! ### exception responses -/
 
